@@ -156,6 +156,13 @@ PROPS = {
         'trusted': ['the f64 hysteresis test of target_n_trees is an uninterpreted boolean'],
         'not_decided': ['reader-visible tree count and bucket bound after a whole build: decided by the build-chain units (delete_extra_trees, missing-tree loop, bucket clauses) where claimed'],
     },
+    'C17': {
+        'verus': {'upgrade': ['from_0_5_to_0_6'], 'upgrade04': ['cosine_from_0_4_to_0_5', 'OldNodeMode::try_from']},
+        'trusted': ['A3: the v0.4 database is well formed: every value decodes under the codec its kind prescribes (LazyDecode::decode is total in the stand-in) and metadata ids are 0 or 1 (precondition wf04)',
+                    'the enum OldNodeMode and its try_from are extracted from inside the function body (rule R13 hoists item statements); the reference re-tagging (new_kind / retag_tree / step / upgraded) is written from the property statement'],
+        'not_decided': ['the upgraded database "opens (or demands a build iff updates were pending) and satisfies C01": follows from C06 / C01 on the resulting view, not re-proved here',
+                        'a pointwise (key by key) restatement of the fold `upgraded` is not proved as a separate lemma'],
+    },
     'C18': {
         'verus': {'writer_scans': KEYS + ['Writer::prepare_changing_distance', 'clear_tree_nodes'], 'store': ['Writer::need_build'], 'reader_open': ['Reader::open']},
         'kani': {'quick': [('distance_side', ['metric_names_are_reference_strings'])]},
